@@ -10,6 +10,13 @@
 // "General position" is applied to pattern and path only (DESIGN.md C19): pattern >= 3 vertices, not all collinear,
 // path >= 2 vertices, neither with repeated consecutive vertices (cyclically for the pattern and for closed paths),
 // |coord| <= 2^40. Everything else is executed for diagnostics only, counted, and never judged.
+//
+// Genuine defect seen on the unchanged tree (about 1 call in 150 000, magnitudes <= 2^12): a triangular hole (or notch
+// with a mouth < 1 unit wide) of the union whose corner is a near-touch of a quad corner and a foreign quad edge is
+// filled, whatever its size (areas 363 .. 808 187 seen): the integer grid closes the near-touch into a pinch of the
+// outer ring and ClipperBase::DoSplitOp throws away the split-off triangle because its orientation is opposite to the
+// ring's. Such violations carry the classifier tag `triangular_hole_pinched_at_near_touch_corner_filled`
+// (classify_face below); pinned witnesses findings/c19_triangular_*.txt.
 #include "region.h"
 #include "gen.h"
 #include "clipper2/clipper.h"
